@@ -473,3 +473,72 @@ func init() {
 		Stubs:  stubErrors,
 	})
 }
+
+func init() {
+	register(&PropSpec{
+		ID:   "C19",
+		Pkgs: []string{"fragmentation"},
+		Items: func(tier string, seed int64) []Item {
+			var it []Item
+			ws := pick(tier, append(rng(1, 17), 31, 32, 33), append(rng(1, 66), 127, 128, 129, 130))
+			for _, w := range ws {
+				for _, size := range pick(tier, []int{1, 3}, []int{1, 2, 3, 8}) {
+					red := 5
+					if tier == "thorough" {
+						red = 40
+						if w > 66 {
+							red = 10
+						}
+					}
+					it = append(it, Item{PkgKey: "fragmentation", Func: "VerifC19_Encode", Shape: []int{w, size, red}})
+				}
+				if w <= 17 {
+					it = append(it, Item{PkgKey: "fragmentation", Func: "VerifC19_Linear", Shape: []int{w, 2, 3}})
+				}
+			}
+			it = append(it, Item{PkgKey: "fragmentation", Func: "VerifC19_Encode", Shape: []int{4, 2, 0}})
+			for n := 0; n <= 8; n++ {
+				for red := 0; red <= 2; red++ {
+					it = append(it, Item{PkgKey: "fragmentation", Func: "VerifC19_InvalidArgs", Shape: []int{n, red}})
+				}
+			}
+			return it
+		},
+		Bounds: func(tier string) map[string]string { return map[string]string{} },
+		Stubs:  stubErrors,
+	})
+	register(&PropSpec{
+		ID:     "C20",
+		Pkgs:   []string{"gps", "airtime", "root"},
+		Solver: SolverCVC5,
+		Items: func(tier string, seed int64) []Item {
+			var it []Item
+			for _, f := range []string{"VerifC20_GPSRoundTrip", "VerifC20_GPSOffset", "VerifC20_GPSMonotone", "VerifC20_GPSDuration"} {
+				it = append(it, Item{PkgKey: "gps", Func: f, Shape: []int{}})
+			}
+			it = append(it, Item{PkgKey: "root", Func: "VerifC20_EIRPIndex", Shape: []int{}}, Item{PkgKey: "root", Func: "VerifC20_EIRPDecode", Shape: []int{}})
+			it = append(it, Item{PkgKey: "airtime", Func: "VerifC20_CodingRate", Shape: []int{}})
+			for sf := 5; sf <= 12; sf++ {
+				for cr := 1; cr <= 4; cr++ {
+					for h := 0; h <= 1; h++ {
+						for de := 0; de <= 1; de++ {
+							if tier != "thorough" && (sf+cr+h+de)%4 != 0 {
+								continue
+							}
+							it = append(it, Item{PkgKey: "airtime", Func: "VerifC20_Symbols", Shape: []int{sf, cr, h, de}})
+							for bw := 0; bw < 5; bw++ {
+								if tier != "thorough" && (bw+sf)%5 != 0 {
+									continue
+								}
+								it = append(it, Item{PkgKey: "airtime", Func: "VerifC20_Airtime", Shape: []int{sf, bw, cr, h, de}})
+							}
+						}
+					}
+				}
+			}
+			return it
+		},
+		Bounds: func(tier string) map[string]string { return map[string]string{} },
+		Stubs:  append([]string{"time.Time modelled as int64 nanoseconds since the Unix epoch (Add/Sub/Before/After/Equal exact in range 1980..2100); math.Ceil/Max as IEEE roundToIntegral/fp.max"}, stubErrors...),
+	})
+}
